@@ -63,7 +63,7 @@ func c14(o Opts) error {
 	}
 	for i := 0; i < n; i++ {
 		cfg := genCfg(rng)
-		ops, _ := GenHistory(rng, cfg, HistOpts{Len: 2 + rng.Intn(maxLen), Vectors: true, Vacuum: true})
+		ops, _ := GenHistory(rng, cfg, HistOpts{Len: 2 + rng.Intn(maxLen), Vectors: true, Vacuum: true, Windows: i%2 == 1})
 		if err := runHistory(res, cfg, ops, "C14"); err != nil {
 			return err
 		}
